@@ -86,7 +86,9 @@ Lemma load_inv : forall W o x st spec0 range asset in_dyn root attr count,
 Proof.
   intros W o x st spec0 range asset in_dyn root attr count H. unfold load.
   set (s := load_target st spec0).
-  destruct (asset && negb (N.eqb attr 0) && negb (attr_allowed o attr)).
+  destruct (asset && N.eqb attr 9 && negb (mem s (w_wasm_ext W))).
+  { apply set_slot_nonpending_inv; [exact H | reflexivity]. }
+  destruct (asset && negb (N.eqb attr 0) && negb (N.eqb attr 9) && negb (attr_allowed o attr)).
   { apply set_slot_nonpending_inv; [exact H | reflexivity]. }
   assert (Hproceed : PendInv x
     match class_of W s with
